@@ -341,6 +341,20 @@ fn oracle_scan_inner(buf: &[u8], adaptors: bool) -> Result<(), (String, String)>
     let mut frames = Vec::new();
     let mut steps = 0usize;
     for m in &mut it {
+        // a frame handed out from inside a buffer is the same frame as its bytes parsed on their own
+        if m.frame_len() <= 300 || steps < 2 {
+            let r = frame_range(buf, &m);
+            if r.1 <= buf.len() && r.0 <= r.1 {
+                if let Ok(alone) = MessageFrame::new(&buf[r.0..r.1]) {
+                    if alone.message_number() != m.message_number() || alone.crc() != m.crc() || alone.data() != m.data() || format!("{:?}", alone.get_message()) != format!("{:?}", m.get_message()) {
+                        return Err((
+                            "c05:delivered-frame-differs-from-its-bytes".into(),
+                            format!("frame delivered from offset {} of a {}-byte buffer: number {:?} / {} payload bytes, the same bytes parsed alone: number {:?} / {} payload bytes", r.0, buf.len(), m.message_number(), m.data_len(), alone.message_number(), alone.data_len()),
+                        ));
+                    }
+                }
+            }
+        }
         frames.push(frame_range(buf, &m));
         steps += 1;
         if steps > buf.len() + 1 {
@@ -632,7 +646,7 @@ pub fn run(ctx: &Ctx, replay: Option<&J>, chunked: bool) -> CheckResult {
         "proptest-generated buffers of up to 6 segments {valid frame (payload 0..=1023, random reserved bits), garbage, lone 0xD3, \
          header announcing a long body, frame with one flipped bit, truncated frame, frame nested in the payload of a valid/invalid outer \
          candidate, D3-rich bytes}, plus an enumeration of all 65536 (reserved bits, length) header patterns as valid frames inside buffers longer than a maximum-length frame, streams of 66-200 KB (total lengths around 2^16 and 2^17), and noisy stretches between valid frames (255..1200 damaged short frames, 64..140 damaged kilobyte frames, 0xD3 runs of 1030..66000 bytes, 33-200 KB of random and preamble-rich noise, 255..12000 empty candidates with a wrong checksum); oracle: next_msg_frame == reference scanner (consumed, presence, exact byte range), consumed<=len, every \
-         skipped 0xD3 is a complete wrong-CRC candidate, MsgFrameIter yields the reference frame list/consumed total and terminates, and nth/skip/step_by/count/last/size_hint/fold/for_each/find/position/take/peekable/enumerate+filter agree with it, and so do mixed call sequences on one iterator (next, nth(k), size_hint, consumed, take(k).count(), peek, size_hint followed by nth) against a model that only holds the reference frame list; frames whose checksum is a special value (0x000000, 0xFFFFFF, 0xD30000, ...) are included. \
+         skipped 0xD3 is a complete wrong-CRC candidate, MsgFrameIter yields the reference frame list/consumed total and terminates, every frame it hands out has the attributes (number, payload, checksum, decoded message) of its own bytes parsed alone, and nth/skip/step_by/count/last/size_hint/fold/for_each/find/position/take/peekable/enumerate+filter agree with it, and so do mixed call sequences on one iterator (next, nth(k), size_hint, consumed, take(k).count(), peek, size_hint followed by nth) against a model that only holds the reference frame list; frames whose checksum is a special value (0x000000, 0xFFFFFF, 0xD30000, ...) are included. \
          non-trivial = >=2 segment kinds and a 0xD3 before the delivered frame or an incomplete candidate; distinct = hash of the buffer"
             .to_string()
     } else {
